@@ -35,6 +35,7 @@ func init() {
 		addRule(id, "rangeinclusive", 2, ruleRangeInclusive)
 	}
 	addRule("C06", "trimcoords", 3, ruleTrimCoords)
+	addRule("C03", "qualcount", 1, ruleQualCount)
 	// C05: of the constant-table clauses, those the reverse complement rests on — every letter of a
 	// complementing alphabet has a partner in it, and the pairing is a case-preserving involution
 	addRule("C05", "tables/alphabet", 10, func(c *Ctx, r string) {
@@ -57,7 +58,7 @@ func init() {
 		"C06": "rangeinclusive: every test of Truncate that rejects the range by comparing start or end with src.Start() or src.End() is strict in the rejecting direction, so the sequence's own bounds are accepted. trimcoords: in Trim every integer has an origin degree (1 for q.Start() and q.End(), 0 for constants and lengths; sums and differences add); no value on the way to a result or to an EAt probe merges a position with a subscript, and both results and every EAt argument have degree 1.",
 		"C07": "rangeinclusive: as C06 (Multi.Subseq and Multi.Truncate go through it row by row). carvecap also recognises a column cut as the tail of a block that grows round the loop by append.",
 		"C10": "kmerspace: in ForEachKmerOf every integer is classed as a subscript of the whole sequence (start, end, what subscripts s.Seq), a subscript of a cut s.Seq[lo:hi] with a low bound, or neutral; no comparison relates the two kinds and the position handed to the callback is a subscript of the whole sequence. indexspace also accepts parameters used as the bounds of a cut of s.Seq.",
-		"C03": "recovercover is positional: a call that can reach an explicit panic, and the panic itself, are covered only by a defer of the converter that dominates them.",
+		"C03": "qualcount: the FASTQ reader decodes the scores from the very slice whose length a dominating comparison found equal to the number of letters read (not from a value derived from it afterwards). recovercover is positional: a call that can reach an explicit panic, and the panic itself, are covered only by a defer of the converter that dominates them.",
 		"C09": "validateupfront: NW, NWAffine, Fitted and FittedAffine test the letter indices of each sequence, with an error return, in a loop of its own (depth one), not only inside the nested fill loop, which does not run when the other sequence is empty. The local aligners validate in the fill only, on the pinned tree as well, and are not instances.",
 		"C13": "dirremoval: every removal of the sorter's temporary directory is os.RemoveAll (os.Remove fails silently when run files of an earlier cycle are still there).",
 		"C15": "queryintact: every RevComp or Reverse reached from PALS.Align or PALS.AlignFrom is applied to a value that is a copy (the result of Clone) on every path, never to a sequence held in a field of the aligner.",
